@@ -606,3 +606,11 @@ pub mod cluster {
 pub mod pool {
     pub use crate::network::connection_pool_verif::VerifPool;
 }
+
+/// C10: the reconnect policies (crate-private without the unstable feature) that pace a pool's refills.
+pub mod reconnect {
+    pub use crate::policies::reconnect::{
+        ConstantReconnectPolicy, ExponentialReconnectPolicy, ReconnectPolicy,
+        ReconnectPolicySession,
+    };
+}
